@@ -107,7 +107,7 @@ End Coupling.
    fb_actual part (bypassing biases such as harmonicWalls); colvar::f = ABF force + both parts, and f_old = f is saved
    after both were added (C04's st_f / st_fold).  Any history of the two parts leaves the ABF estimator unchanged. *)
 Definition with_other (nd : nat) (i : @abf_in R) (on oa : @vec R) : @abf_in R :=
-  mkIn (i_x i) (i_e i) (vbuild nd (fun k => vget Rops on k + vget Rops oa k)) (i_j i) (i_boundary i) (i_apply i).
+  mkIn (i_x i) (i_e i) (vbuild nd (fun k => vget Rops on k + vget Rops oa k)) (i_j i) (i_boundary i) (i_apply i) (i_w i).
 
 Theorem abf_coupling_routed (c : @abf_cfg R) (o' : list bool) (hr : list (@abf_in R * (@vec R * @vec R))) (b : idx) :
   c_same_step c = false ->
